@@ -82,18 +82,20 @@ Section Exec.
     | (s1, None) => if raises then (s1, inr (Exc "ValueError")) else (s1, inl (VInt ret))
     end.
 
-  (* _deal_patched_method: `result` is the local variable *)
-  Fixpoint exec_patched (l : list minstr) (s : istate) (result : option value) (sets : list (string * value)) (raises : bool) (ret : Z)
-    : istate * outcome :=
-    match l with
-    | [] => (s, Ok VNone)
-    | MValidate :: t => match validate s with Some e => (s, e) | None => exec_patched t s result sets raises ret end
-    | MCallIntoResult :: t => match call_method s sets raises ret with
-                              | (s1, inr e) => (s1, e)
-                              | (s1, inl v) => exec_patched t s1 (Some v) sets raises ret
-                              end
-    | MReturnResult :: _ => (s, match result with Some v => Ok v | None => Exc "UnboundLocalError" end)
-    end.
+  (* _deal_patched_method: `result` is the local variable; `method` is the bound method it was given *)
+  Section Patched.
+    Variable method : istate -> istate * (value + outcome).
+    Fixpoint exec_patched (l : list minstr) (s : istate) (result : option value) : istate * outcome :=
+      match l with
+      | [] => (s, Ok VNone)
+      | MValidate :: t => match validate s with Some e => (s, e) | None => exec_patched t s result end
+      | MCallIntoResult :: t => match method s with
+                                | (s1, inr e) => (s1, e)
+                                | (s1, inl v) => exec_patched t s1 (Some v)
+                                end
+      | MReturnResult :: _ => (s, match result with Some v => Ok v | None => Exc "UnboundLocalError" end)
+      end.
+  End Patched.
 
   (* __getattribute__: what is handed out for an attribute of the given kind. true = the patched method, false = the attribute itself *)
   Inductive akind := KDeal (name : string) | KMethod | KOther.
@@ -115,15 +117,53 @@ Section Exec.
     end.
   Definition getattribute (k : akind) : option bool := exec_getattribute (c_getattribute code) k false false.
 
+  (* a call of a method through the instance: __getattribute__ decides what is called *)
+  Definition call_through (method : istate -> istate * (value + outcome)) (s : istate) : option (istate * outcome) :=
+    match getattribute KMethod with
+    | Some true => Some (exec_patched method (c_patched code) s None)
+    | Some false => Some (match method s with (s1, inr e) => (s1, e) | (s1, inl v) => (s1, Ok v) end)
+    | None => None
+    end.
+  (* bodies with raw stores and nested calls through self *)
+  Fixpoint inner_items (s : istate) (l : list iitem) : istate * option outcome :=
+    match l with
+    | [] => (s, None)
+    | (raw, (n, v)) :: t => if raw : bool then inner_items (set_attr s n v) t
+                            else match setattr s n v with (s1, Some e) => (s1, Some e) | (s1, None) => inner_items s1 t end
+    end.
+  Definition inner_method (items : list iitem) (raises : bool) (s : istate) : istate * (value + outcome) :=
+    match inner_items s items with
+    | (s1, Some e) => (s1, inr e)
+    | (s1, None) => if raises then (s1, inr (Exc "ValueError")) else (s1, inl VNone)
+    end.
+  Fixpoint body_items (s : istate) (l : list bitem) : option (istate * option outcome) :=
+    match l with
+    | [] => Some (s, None)
+    | BSet n v :: t => match setattr s n v with (s1, Some e) => Some (s1, Some e) | (s1, None) => body_items s1 t end
+    | BRaw n v :: t => body_items (set_attr s n v) t
+    | BInner items raises :: t => match call_through (inner_method items raises) s with
+                                  | Some (s1, Ok _) => body_items s1 t
+                                  | Some (s1, e) => Some (s1, Some e)
+                                  | None => None
+                                  end
+    end.
+  Definition body_method (body : list bitem) (raises : bool) (ret : Z) (s : istate) : option (istate * (value + outcome)) :=
+    match body_items s body with
+    | Some (s1, Some e) => Some (s1, inr e)
+    | Some (s1, None) => Some (if raises then (s1, inr (Exc "ValueError")) else (s1, inl (VInt ret)))
+    | None => None
+    end.
+
   (* one operation of a history, through the regenerated code *)
   Definition step_code (s : istate) (o : iop) : option (istate * outcome) :=
     match o with
     | OSet n v => match setattr s n v with (s1, Some e) => Some (s1, e) | (s1, None) => Some (s1, Ok VNone) end
-    | OCall sets raises ret =>
+    | OCall sets raises ret => call_through (fun s0 => call_method s0 sets raises ret) s
+    | OCallB body raises ret =>
+        (* the body is a total function of the state once __getattribute__ hands out something for methods *)
         match getattribute KMethod with
-        | Some true => Some (exec_patched (c_patched code) s None sets raises ret)
-        | Some false => Some (match call_method s sets raises ret with (s1, inr e) => (s1, e) | (s1, inl v) => (s1, Ok v) end)
         | None => None
+        | Some _ => call_through (fun s0 => match body_method body raises ret s0 with Some r => r | None => (s0, inr (Exc "<stuck>")) end) s
         end
     | OStatic ret =>
         match getattribute KOther with
